@@ -28,17 +28,20 @@ func init() {
 		Level: "exploration",
 		Rule: "keys: the committed pool (Ed25519, secp256k1, P-256, P-384, P-521, RSA-2048/3072/4096/8192 - 8192 bits is the largest RSA key libp2p accepts) + freshly generated keys of every non-RSA algorithm (RSA fresh in thorough) + ECDSA-typed keys on the secp256k1 curve (coerced by FromPubKey), selected so that several have an X or Y coordinate with leading zero bytes. Per key: FromPubKey -> String -> Parse -> == and PubKey().Equals; DID equality vs key equality over all pairs; ~40 alternative encodings of its key material under the right multicodec (uncompressed / hybrid / wrong-prefix / off-curve / padded / truncated points, wrong-length raw keys, RSA as PKIX, non-minimal DER, trailing bytes), non-minimal multicodec varints, other multibase prefixes, case and whitespace changes, bad base58 characters, unsupported codecs; plus random strings. " +
 			"Oracle: every accepted identifier from which a key can be extracted must be FromPubKey(key).String() (one principal, one DID); non-base58btc / non-did:key / unsupported-codec strings rejected; PubKey() returns a key or an error (a panic is caught and reported). " +
+			"Purity (also in a -race build): a sample of these calls on shared objects is repeated in reverse / shuffled order and from 16..32 goroutines at once; every outcome must equal the first one and the race detector must stay silent. " +
 			"non-trivial = alternative encoding or pair of different keys; distinct = the identifier string.",
 		Assumptions: []string{
 			"key equality is libp2p's PubKey.Equals",
 			"alternative encodings are built by the harness from the key's coordinates / DER structure, independently of go-ucan",
 		},
-		Shards:      shards(4, 16),
-		Run:         runC16,
-		MinEvals:    floor(8000, 150000),
-		MinDistinct: floor(2000, 40000),
+		Shards:          shards(4, 16),
+		RaceShards:      shards(1, 2),
+		RaceIsViolation: true,
+		Run:             runC16,
+		MinEvals:        floor(8000, 150000),
+		MinDistinct:     floor(2000, 40000),
 		RequiredCells: func(string) []string {
-			cells := []string{"rsa-shapes", "rsa-shapes/small-exponent", "rsa-shapes/odd-bit-length", "coerced-secp256k1/normal", "coerced-secp256k1/short-coordinate", "pairs/equal", "pairs/different", "alt/accepted-canonical", "alt/rejected-by-parse", "alt/rejected-by-pubkey", "string/rejected", "multibase/other", "codec/unsupported", "varint/non-minimal"}
+			cells := []string{"purity/did/history", "purity/did/concurrent", "rsa-shapes", "rsa-shapes/small-exponent", "rsa-shapes/odd-bit-length", "coerced-secp256k1/normal", "coerced-secp256k1/short-coordinate", "pairs/equal", "pairs/different", "alt/accepted-canonical", "alt/rejected-by-parse", "alt/rejected-by-pubkey", "string/rejected", "multibase/other", "codec/unsupported", "varint/non-minimal"}
 			for _, a := range []string{"ed25519", "secp256k1", "p256", "p384", "p521", "rsa2048", "rsa3072", "rsa4096", "rsa8192"} {
 				cells = append(cells, "roundtrip/"+a)
 			}
@@ -271,6 +274,9 @@ func c16Judge(w *mon.W, kind, s string, from *gen.Principal) {
 }
 
 func runC16(w *mon.W) {
+	if purityGate(w, c16Purity) {
+		return
+	}
 	r := w.Rng
 	var keys []*gen.Principal
 	for i, p := range gen.Pool() {
